@@ -87,24 +87,6 @@ Theorem c12_print_idempotent_loop : forall (printable : N -> bool) (l : loopexpr
 Proof. exact print_idempotent_loop. Qed.
 Print Assumptions c12_print_idempotent_loop.
 
-(** The guards exclude shapes the parser can produce but that do not round
-    trip (known findings): the float [inf], and a bare word that the loop
-    expression parser reads as an option name or as [continue]. *)
-Theorem c12_float_inf_refuted :
-  exists e, parse_filtered (strip (print_fexpr all_printable e)) <> Ok e.
-Proof. exact float_inf_refuted. Qed.
-Print Assumptions c12_float_inf_refuted.
-
-Theorem c12_loop_array_keyword_refuted :
-  exists l, parse_loop (strip (print_loop all_printable l)) <> Ok l.
-Proof. exact loop_array_keyword_refuted. Qed.
-Print Assumptions c12_loop_array_keyword_refuted.
-
-Theorem c12_loop_offset_continue_refuted :
-  exists l, parse_loop (strip (print_loop all_printable l)) <> Ok l.
-Proof. exact loop_offset_continue_refuted. Qed.
-Print Assumptions c12_loop_offset_continue_refuted.
-
 (** The hypotheses are satisfiable by non-trivial expressions. *)
 Theorem c12_hypotheses_nonvacuous :
   wf_bexpr ex_bool /\ wf_fexpr ex_fexpr /\ wf_loop ex_loop.
